@@ -48,6 +48,7 @@ BaseRow == [q \in QTs |-> CHOOSE i \in 1..N : T.rows[i].qt = q /\ T.rows[i].pos 
 RefOf(r) == LET b == T.rows[BaseRow[r.qt]] IN IF b.unit # r.unit /\ G!Decomposes(b.unit) THEN b.unit ELSE ""
 ASSUME IOEnv.MODE = "gen" =>
    JsonSerialize(IOEnv.OUT_FILE, [i \in 1..N |-> [unit |-> T.rows[i].unit, parts |-> Decomp(T.rows[i]),
+                                                  read |-> G!Read(T.rows[i].unit),        \* the plain reading of the symbol as a string (base rows included)
                                                   prefix |-> PrefixOf(T.rows[i]), ref |-> RefOf(T.rows[i]),
                                                   refparts |-> IF RefOf(T.rows[i]) = "" THEN <<>> ELSE G!Parse(RefOf(T.rows[i]))]])
 
